@@ -87,6 +87,28 @@ def c_prog_seq(ctx, args):
     return None
 
 
+def c_reuse(ctx, args):
+    """history: the SAME gate / circuit objects are used repeatedly (lazy inverse caches, compiled maps): second and third uses must act like the first"""
+    cls, N, prog, l1, l2, mode = args
+    c = NP.build_circuit(N, prog, cls)
+    if mode == 1:
+        for layer in c.layers_forward():
+            layer.compile(N)
+    elif mode == 2:
+        c.compile()
+    outs = []
+    for l, d in ((l1, 'f'), (l2, 'b'), (l1, 'f'), (l2, 'f'), (l1, 'b')):
+        o = NP.PL(l)
+        (c.forward if d == 'f' else c.backward)(o)
+        ref = NP.PL(l)
+        for ins in (prog if d == 'f' else list(reversed(prog))):
+            g = NP.mk_gate(ins[1])
+            (g.forward if d == 'f' else g.backward)(ref)
+        if NP.oPL(o) != NP.oPL(ref):
+            return {'kind': 'oracle', 'where': 'np:%s reused (%s), mode %d' % (cls, d, mode), 'observed': NP.oPL(o), 'expected': NP.oPL(ref)}
+    return None
+
+
 def c_gate_corr(ctx, args):
     N, g, l = args
     return corr(ctx, 'np', 'gate_forward', [N, mgate(g), l], [N, g, l]) or corr(ctx, 'np', 'gate_backward', [N, mgate(g), l], [N, g, l])
@@ -144,7 +166,7 @@ def c_recompile(ctx, args):
     return None
 
 
-CHECKS = {'recompile': c_recompile, 'prog_corr': c_prog_corr, 'prog_seq': c_prog_seq, 'gate_corr': c_gate_corr, 'local': c_local}
+CHECKS = {'reuse': c_reuse, 'recompile': c_recompile, 'prog_corr': c_prog_corr, 'prog_seq': c_prog_seq, 'gate_corr': c_gate_corr, 'local': c_local}
 
 
 def run(ctx):
@@ -180,6 +202,8 @@ def run(ctx):
         g = prog[rng.randrange(L)][1]
         do(ctx, 'gate_corr', [N, g, l])
         do(ctx, 'local', [N, g, l])
+        if it % 3 == 0:
+            do(ctx, 'reuse', [cls, N, prog, l, gen.rplist(rng, N, 2), mode], nontrivial=('ru', it))
         if it % 2 == 0:
             h = rng.randint(1, max(1, L - 1))
             do(ctx, 'recompile', [cls, N, prog[:h], prog[h:] or rprog(rng, ctx.model, N, 2), l, rng.choice([1, 2]), rng.choice(['take', 'compose', 'copy']), rng.choice(['forward', 'backward'])],
